@@ -11,26 +11,39 @@ GEN = ["Infra", "Trace", "Interpolation"]
 LEVEL = "proof"
 TECHNIQUE = ("Coq proof: closed forms of the generated one-step trace kernels by induction over the observation list; "
              "refinement of the FoldReducer state machine (over the C01 ring-buffer model) to a newest-first list of "
-             "folded states; time-indexed view characterised on and off the grid")
-LEVEL_TEXT = ("Machine-checked proofs (Coq, real-number instance) that, for every observation list, time constant, amplitude, "
-              "step time and record size: the generated kernels trace_cumulative / trace_nearest / *_scaled / "
-              "trace_cumulative_value folded over a history equal the sum over past matching events of a*exp(-(t-t_f)/tau) / "
-              "a*exp(-(t-t_last)/tau) (0 before the first event) / their scale*input+amplitude variants, also when the step "
-              "time changes between observations (decay recomputed); exponential smoothing and the cumulative average equal their "
-              "defining sums / the arithmetic mean; the event fold is the time since the last event; and that the FoldReducer "
-              "state machine (forward, peek, dump, view, clear, inplace) over the C01 ring model keeps exactly the newest-first "
-              "list of those folded states: peek is its head, dump lists it newest first, view(k*dt) returns the k-th entry, "
-              "view off the grid returns the reducer's interpolation of the two neighbours (analytic decay / elapsed time / "
-              "previous value / linear), scalar and tensor view paths agree, clear returns to the pre-first-observation "
-              "behaviour, inplace does not matter.  The model is tied to the code by re-translating the trace and "
-              "interpolation kernels on every run and by a differential correspondence check of all ten reducer classes "
-              "against the real classes; closed forms evaluated directly in Python are the direct oracle.")
-LEVEL_NOTE = ("Trusted: Coq kernel + stdlib real axioms; translator for core/trace.py, functional/interpolation.py and the "
-              "record-size expression; hand-written state machine C07/Reducer.v (FoldReducer.forward/peek/dump/view/clear, dt "
-              "setter, RecordTensor.select scalar and tensor paths) and the hand-transcribed exponential_smoothing, CA fold, event "
-              "fold and decay=exp(-dt/tau), all validated by correspondence only (generator coverage). NOT proved: binary64 "
-              "rounding; the record contents after a dt change that resizes the record (correspondence + oracle only); torch "
-              "broadcasting of unequal observation shapes (excluded from the generator except unbroadcastable ones).")
+             "folded states, with invariants over every operation sequence; time-indexed view characterised on and off the grid")
+LEVEL_TEXT = ("Machine-checked proofs (Coq; real-number instance for the numeric statements, axiom-free for the state machine) "
+              "that, for every observation history, time constant, amplitude, step time and record size: (1) the GENERATED kernels "
+              "trace_cumulative / trace_nearest / *_scaled / trace_cumulative_value folded over a history equal the sum over past "
+              "matching events of a*exp(-(t-t_f)/tau) / a*exp(-(t-t_last)/tau) (0 before the first event) / their "
+              "(scale*input+amplitude) variants (also the conditional ones), INCLUDING histories whose step time changes between "
+              "observations (decay = exp(-dt/tau) recomputed); exponential smoothing, the cumulative average and the event fold "
+              "equal their defining sum / the arithmetic mean / the time since the last event; (2) the FoldReducer state machine "
+              "(forward, peek, dump, view, clear, inplace, dt setter) over the C01 ring model keeps exactly the newest-first list "
+              "of folded states: for each of the ten shipped classes, a fresh reducer that observed x_1..x_n holds k steps back "
+              "the closed form of x_1..x_(n-k) (fill value before the first observation); peek is the closed form of the whole "
+              "history, dump lists the record newest first, view(k*dt within tolerance) returns the k-th entry, view off the grid "
+              "returns the reducer's interpolation of the two neighbouring entries sampled at the time elapsed since the earlier "
+              "one (analytic decay / elapsed time / previous value / linear), out-of-range times raise, the float-time and "
+              "tensor-time code paths agree; every element of a tensor observation evolves independently by the one-element "
+              "machine; inplace does not matter; clear() at any point of any operation sequence returns exactly the freshly "
+              "constructed reducer, clear(keepshape=True) leaves an all-fill record and the next observation is folded as a first "
+              "one; the dt setter stores dt, recomputes the decay and rejects non-positive values; structural invariants hold in "
+              "every reachable state.  The model is tied to the code by re-translating the trace / interpolation kernels and the "
+              "record-size expression on every run and by a differential correspondence check of all ten reducer classes (and of "
+              "the six bare kernels) against the real code; closed forms over the observation history evaluated in Python are "
+              "the direct oracle / failing-input search.")
+LEVEL_NOTE = ("Trusted: Coq kernel + stdlib real axioms (sig_forall_dec, sig_not_dec, functional_extensionality_dep, classic); "
+              "translator for core/trace.py, functional/interpolation.py and the record-size expression; hand-written state "
+              "machine C07/Reducer.v (FoldReducer.forward/peek/dump/view/clear, dt setter incl. record resize, "
+              "RecordTensor.select scalar and tensor paths) and the hand-transcribed exponential_smoothing (core/math.py:169-200, "
+              "NOT generated), CA fold, event fold and decay=exp(-dt/tau), all validated by correspondence only (generator "
+              "coverage). NOT proved: binary64 rounding; the record CONTENTS after a dt change that resizes the record and the "
+              "machine-level closed form across a dt change (kernel-level closed form with varying dt is proved; the machine "
+              "level is covered by correspondence + oracle only); torch broadcasting of unequal observation shapes (the generator "
+              "only uses unbroadcastable wrong shapes); time-tensor dimensionality errors. Finding candidate (error path, outside "
+              "the property's quantifier, proved as ca_count_after_failed_forward_refuted, reported in the evidence, not counted): "
+              "CAReducer._count is advanced by a forward() that raises.")
 HEADER = ("From Coq Require Import List ZArith Bool PrimFloat.\n"
           "From Inferno Require Import Base.Num Base.NumF Gen.Trace C01.Ring C07.Reducer C07.ReducerExec.\n"
           "Import ListNotations.\nOpen Scope float_scope.\n")
@@ -600,6 +613,26 @@ def oracle_case(case, impl_steps):
     return None, judged
 
 
+CA_SIG = {"kind": "ca", "what": "count_after_failed_forward"}
+
+
+def ca_count_candidate(case, si):
+    """finding candidate (error path, outside the property's quantifier): CAReducer._count advanced by a forward()
+    that raised.  Returns the index of the first such step or None.  Proved on the model:
+    C07/Findings.v ca_count_after_failed_forward_refuted."""
+    if case["kind"] != "ca":
+        return None
+    accepted = 0
+    for i, (op, st) in enumerate(zip(case["ops"], si[1:])):
+        if op[0] == "clear":
+            accepted = 0
+        elif op[0] == "fwd" and st["out"][0] == "ok":
+            accepted += 1
+        if st["count"] is not None and st["count"] != accepted:
+            return i
+    return None
+
+
 def signature(case, d):
     return {"kind": case["kind"], "op": d["op"][0]}
 
@@ -636,6 +669,8 @@ def run(ctx):
     mismatches, oracle_fail = [], []
     judged_total = 0
     ok_traces = 0
+    candidates = []
+    ca_listed = any(k.get("property") == ID and k.get("match") == CA_SIG for k in F.load_known().get("findings", []))
     if not ok_exec:
         mismatches.append({"case": None, "detail": "executable model C07/ReducerExec.v does not build: " + mk_out[-1500:]})
     for c, ti, tm in zip(cases, impl["cases"], model[: len(cases)]):
@@ -645,6 +680,16 @@ def run(ctx):
         judged_total += judged
         if d is not None:
             oracle_fail.append({"case": c, "detail": d, "signature": signature(c, d)})
+        j = ca_count_candidate(c, si)
+        if j is not None:
+            rec = {"case": dict(c, ops=c["ops"][: j + 2]),
+                   "detail": {"step": j, "op": c["ops"][j][:2], "what": "CAReducer._count advanced by a forward() that raised; "
+                              "later averages are not the mean of the folded observations"},
+                   "signature": CA_SIG}
+            if ca_listed and not any(f["signature"] == CA_SIG for f in oracle_fail):
+                oracle_fail.append(rec)      # listed in known_findings.json: reported as KNOWN-FINDING by check.py
+            elif len(candidates) < 3:
+                candidates.append(rec)
         if isinstance(tm, Exception):
             if ok_exec:
                 mismatches.append({"case": c, "detail": str(tm)})
@@ -690,6 +735,7 @@ def run(ctx):
         "kind_distribution": dict(Counter(c["kind"] for c in cases)),
         "kernel_calls": len(kernels), "kernel_mismatches": kern_bad,
         "oracle_judged_steps": judged_total,
+        "finding_candidates_not_counted": candidates,
         "samples": cases[:2],
         "mismatches": mismatches, "oracle_failures": oracle_fail,
         "traces_validated_against_impl": ok_traces,
